@@ -189,6 +189,24 @@ def detector_shape(ctx, P):
                 ctx.violation(ob, "R10.detector-pure", "StateDigraph.detect_deadlock", unparse(r)[:80], "negative-answer-before-all-components",
                               "the search returns from inside the loop over the strongly connected components with an answer that may be False: a deadlock in a later "
                               "component is then missed", loc(r))
+    # a component of one vertex is a knot iff that vertex's only way out is the loop onto itself: successors(v) == {v}.  (Incoming edges do not matter: other
+    # servers may wait for a server that waits for itself.)
+    singles = []
+    for x in rules.walk(P, dview, ci.methods["detect_deadlock"]):
+        if isinstance(x, ast.If) and isinstance(x.test, ast.Compare) and len(x.test.ops) == 1 and isinstance(x.test.ops[0], ast.Eq) \
+                and unparse(x.test.comparators[0]) == "1" and isinstance(x.test.left, ast.Call) and call_name(x.test.left) == "len":
+            singles.append(x)
+    for br in singles:
+        from ..model import enclosing_def
+        f_ = enclosing_def(br)
+        tf = rules.temporaries_free(f_) if f_ is not None else None
+        body_txt = [unparse(y).replace(" ", "") for y in (ast.walk(tf) if tf is not None else ast.walk(br)) if isinstance(y, ast.Compare) and len(y.ops) == 1 and isinstance(y.ops[0], ast.Eq)]
+        okk = any(t.startswith("set(self.statedigraph.successors(") or "==set(self.statedigraph.successors(" in t for t in body_txt)
+        other = [unparse(y)[:60] for s_ in br.body for y in ast.walk(s_) if isinstance(y, ast.Call) and call_name(y) in ("degree", "in_degree", "out_degree", "has_edge", "predecessors", "in_edges", "neighbors")]
+        ob.ok("singleton-knot", "len(component) == 1: %s" % ("successors(v) == {v}" if okk else "?"))
+        if not okk or other:
+            ctx.violation(ob, "R10.detector-pure", "StateDigraph.detect_deadlock", "; ".join(other) or "singleton test", "singleton-knot-test",
+                          "a single vertex is a knot iff its successors are exactly itself; a test on degrees or incoming edges misses a self-blocked server that others wait for", loc(br))
     # re-added edges
     fn = ci.methods.get("action_at_attach_server")
     fn = rules.temporaries_free(fn) if fn is not None else None
